@@ -43,11 +43,14 @@ var c16Sources = map[string]string{
 var c16ParseSrc = "a = [1, 2, {\"k\": `q r`}]\nif a[0] == 1 && !b { f(a.b, x=1) } elif c { for i in a { break } } else { s = \"\\x41\\u00e9\" + 'b' + \"\"\"m\"\"\" }\nx = a[1:2:1]\nIf TRUE { y = Nil } ELIF False { Continue } Else { For q IN a { Break } }\n"
 var c16Fresh int64
 
+// SQL texts by slot: the first makes a shared tokenizer switch its escape mode, the others read differently in the two modes
+var c16SQL = []string{`select * from t where dir = 'C:\tmp\'`, `select "C:\data\logs.csv" from t where id = 5`, "SELECT 'a\\' , b -- '\nFROM t"}
+
 var c16BadSrc = "a = (1 +\n\"unterminated\nb = -0x\n"
 
 func c16Point(slot int) PointSpec {
 	return PointSpec{Meas: fmt.Sprintf("m%d", slot), Tags: map[string]string{"t0": "tv"}, Fields: map[string]any{
-		"message": fmt.Sprintf("hello %d", 40+slot), "xm": "<a><b>7</b></a>", "sq": "select * from t where id = 5", "ep": int64(1600000000), "ts": "2021-01-02 03:04:05", "ts2": "2021-03-04 05:06:07"}, Time: int64(slot)}
+		"message": fmt.Sprintf("hello %d", 40+slot), "xm": "<a><b>7</b></a>", "sq": c16SQL[slot%len(c16SQL)], "ep": int64(1600000000), "ts": "2021-01-02 03:04:05", "ts2": "2021-03-04 05:06:07"}, Time: int64(slot)}
 }
 
 func c16Ops() []c16Op {
